@@ -126,16 +126,18 @@ class _UserStub:
         return types.SimpleNamespace(name=name, status=UserStatus.UNKNOWN, privileged=False)
 
 
-def _managers(dl_dir: str):
+def _managers(dl_dir: str, cache_dir: str | None = None):
     from aioslsk.settings import Settings
     from aioslsk.events import EventBus
     from aioslsk.shares.manager import SharesManager
     from aioslsk.transfer.manager import TransferManager
+    from aioslsk.transfer.cache import TransferShelveCache
     settings = Settings(credentials={'username': 'u', 'password': 'p'}, shares={'download': dl_dir})
     bus = EventBus()
     net = _NetStub()
     sm = SharesManager(settings, bus, net)
-    tm = TransferManager(settings, bus, _UserStub(), sm, net)
+    tm = TransferManager(settings, bus, _UserStub(), sm, net,
+                         cache=TransferShelveCache(cache_dir) if cache_dir else None)
     return settings, bus, net, sm, tm
 
 
@@ -224,18 +226,60 @@ def _read_local(tr) -> bytes:
         return b''
 
 
+def _att_file(case: dict, att: dict) -> list:
+    """the uploader's shared file during this attempt, as pattern pieces"""
+    f = att.get('file')
+    if f is None:
+        return [(case['mul'], case['add'], 0, case['flen'])]
+    return [tuple(p) for p in f]
+
+
+class _WriteGate:
+    """SimLoop runs executor jobs inline. While `hold` is set, a file `write` handed to the executor is still
+    performed at once (the bytes are on their way to the disk) but its future stays pending — the moment in which
+    the real thread pool has the chunk and the task has not been told yet."""
+
+    def __init__(self, loop):
+        self.loop = loop
+        self.hold = False
+        self.held: list = []
+        self._orig = loop.run_in_executor
+        loop.run_in_executor = self.run_in_executor
+
+    def run_in_executor(self, executor, func, *args):
+        target = getattr(func, 'func', func)
+        if self.hold and getattr(target, '__name__', '') == 'write':
+            fut = self.loop.create_future()
+            try:
+                func(*args)
+            except BaseException as e:  # noqa
+                fut.set_exception(e)
+                return fut
+            self.held.append(fut)
+            return fut
+        return self._orig(executor, func, *args)
+
+    def release(self):
+        self.hold = False
+        for f in self.held:
+            if not f.done():
+                f.set_result(None)
+        del self.held[:]
+
+
 async def _dl_main(loop, case: dict, tmp: str):
     from aioslsk.events import PeerInitializedEvent
+    from aioslsk.exceptions import InvalidStateTransition
     from aioslsk.transfer.model import Transfer, TransferDirection
-    from aioslsk.transfer.state import TransferState
     from aioslsk.protocol.messages import PeerTransferRequest
     from aioslsk.network.rate_limiter import LimitedRateLimiter
     dl_dir = os.path.join(tmp, 'dl')
+    cache_dir = os.path.join(tmp, 'cache')
     os.makedirs(dl_dir)
-    N, mul, add = case['flen'], case['mul'], case['add']
-    F = pat(mul, add, 0, N)
-    _settings, _bus, net, _sm, tm = _managers(dl_dir)
-    tr = await tm.add(Transfer('peer', 'music\\f.bin', TransferDirection.DOWNLOAD))
+    os.makedirs(cache_dir)
+    name = case.get('name', 'music\\f.bin')
+    _settings, _bus, net, _sm, tm = _managers(dl_dir, cache_dir)
+    tr = await tm.add(Transfer('peer', name, TransferDirection.DOWNLOAD))
     await tr.state.queue()
     pre = case.get('pre')
     pre_pieces = []
@@ -244,33 +288,116 @@ async def _dl_main(loop, case: dict, tmp: str):
         tr.local_path = os.path.join(dl_dir, 'f.bin')
         with open(tr.local_path, 'wb') as f:
             f.write(bytes_of(pre_pieces))
-    honest_so_far = (not pre) or ((pre['mul'], pre['add']) == (mul, add) and pre['len'] <= N)
     writes: list = []
-    orig_cb = tr._transfer_progress_callback
+    ctx = {'tm': tm, 'tr': tr, 'net': net, 'saved': False}
+    gate = _WriteGate(loop)
 
-    def recording_cb(data):
-        writes.append(len(data))
-        orig_cb(data)
-    tr._transfer_progress_callback = recording_cb
+    def hook(t):
+        orig_cb = t._transfer_progress_callback     # bound method of the class
+
+        def recording_cb(data):
+            writes.append(len(data))
+            orig_cb(data)
+        t._transfer_progress_callback = recording_cb
+    hook(tr)
 
     obs, lines, vs = [], [], []
     fnet = fakenet.FakeNet()
     off, lw = 0, None
-    lines.append('dl ' + enc_pieces(pre_pieces))
+    lines.append('dl ' + enc_pieces(pre_pieces) + (' 1' if pre else ' 0'))
     obs.append(_dl_snapshot(tr, off, lw, writes))
     ticket = 100
 
     def V(sig, what, **kw):
         vs.append(Violation(sig, what, case, **kw))
 
+    async def do_save():
+        t = ctx['tr']
+        cb = t.__dict__.pop('_transfer_progress_callback', None)     # the recorder is not part of the transfer
+        try:
+            ctx['tm'].write_cache()
+        finally:
+            if cb is not None:
+                t._transfer_progress_callback = cb
+        ctx['saved'] = True
+        lines.append('save')
+        obs.append(_dl_snapshot(t, off, lw, writes))
+
+    async def do_crash():
+        """the process dies; a new client instance loads the cache"""
+        if not ctx['saved']:
+            return
+        t = ctx['tr']
+        downloading = _state_name(t) == 'DOWNLOADING'
+        path = t.local_path
+        try:
+            keep = os.path.getsize(path) if path else 0        # what has reached the operating system
+        except OSError:
+            keep = 0
+        for task in t.get_tasks():
+            if not task.done():
+                task.cancel()
+        await settle()
+        if downloading and path:
+            os.truncate(path, keep)                             # user-space buffers die with the process
+        _s2, _b2, net2, _sm2, tm2 = _managers(dl_dir, cache_dir)
+        await tm2.read_cache()
+        ctx['tm'] = tm2
+        ctx['net'] = net2
+        ctx['tr'] = tm2.transfers[0] if tm2.transfers else None
+        if ctx['tr'] is None:
+            raise RuntimeError('the cache does not hold the transfer')
+        hook(ctx['tr'])
+        lines.append(f'crash {keep}')
+        obs.append(_dl_snapshot(ctx['tr'], off, lw, writes))
+
+    async def do_api(what: str):
+        t = ctx['tr']
+        try:
+            if what == 'pause':
+                await ctx['tm'].pause(t)
+            else:
+                await ctx['tm'].queue(t)
+        except InvalidStateTransition:
+            pass
+        await settle()
+        lines.append(what)
+        obs.append(_dl_snapshot(t, off, lw, writes))
+
+    async def do_post(op: str):
+        if op == 'save':
+            await do_save()
+        elif op == 'crash':
+            await do_crash()
+        elif op == 'queue':
+            if _state_name(ctx['tr']) != 'COMPLETE':      # re-downloading a COMPLETE file starts a new file (C09)
+                await do_api('queue')
+        else:
+            await do_api('pause')
+
+    # what an honest history should have left in the local file: every accepted attempt so far was served
+    # honestly from a file that extends the one before (and the pre-existing file is a prefix of the first)
+    lineage_ok = True
+    prev_file: bytes | None = bytes_of(pre_pieces) if pre else None
+    cur_file_pieces = None
+    for op in case.get('pre_ops', []):
+        await do_post(op)
     for ai, att in enumerate(case['attempts']):
+        tm, tr, net = ctx['tm'], ctx['tr'], ctx['net']
         ticket += 1
         ann = att['ann']
-        size_before = len(_read_local(tr))
+        fpieces = _att_file(case, att)
+        Fk = bytes_of(fpieces)
+        Nk = len(Fk)
+        if fpieces != cur_file_pieces:
+            cur_file_pieces = fpieces
+            lines.append('remote ' + enc_pieces(fpieces))
+            obs.append('ok')
+        path_before = tr.local_path
+        local_before = _read_local(tr)
+        size_before = len(local_before)
         state_before = _state_name(tr)
-        honest_att = honest_so_far and att['mode'] == 'honest' and ann == N
-        if not (att['mode'] == 'honest' and ann == N):
-            honest_so_far = False
+        honest_att = att['mode'] == 'honest' and ann == Nk
         peer = _PeerStub()
         conn, lw_new, rr, rw = _file_conn(net, fnet, incoming=True)
         if att.get('lim'):
@@ -278,19 +405,24 @@ async def _dl_main(loop, case: dict, tmp: str):
         hs = att.get('hs') if not att.get('cutinit') else None
         if hs is None:
             rw.write(struct.pack('<I', ticket))
-        req = PeerTransferRequest.Request(direction=1, ticket=ticket, filename='music\\f.bin', filesize=ann)
+        req = PeerTransferRequest.Request(direction=1, ticket=ticket, filename=name, filesize=ann)
         await tm._on_peer_transfer_request(req, peer)
         await settle()
         accepted = any(getattr(m, 'allowed', None) is True for m in peer.sent)
         if not accepted:
-            # refused (COMPLETE) or ignored (being processed): nothing else happens in this attempt
+            # refused (COMPLETE, PAUSED) or ignored (being processed): nothing else happens in this attempt
             rw.close()
             refusal = [m for m in peer.sent if getattr(m, 'allowed', None) is False]
             o = f'refused-{refusal[0].reason.lower()}' if refusal else 'ignored'
             lines.append(f"begin {ann} {1 if att.get('lim') else 0}")
             obs.append(o)
             await settle()
+            for op in att.get('post', []):
+                await do_post(op)
             continue
+        if not (honest_att and (prev_file is None or Fk[:len(prev_file)] == prev_file)):
+            lineage_ok = False
+        prev_file = Fk
         lw = lw_new
         if hs is None:
             await tm._on_peer_initialized(PeerInitializedEvent(conn, requested=False))
@@ -315,7 +447,8 @@ async def _dl_main(loop, case: dict, tmp: str):
             off = got_offset
             # monitor: the offset on the wire is the size of the local file
             if got_offset != size_before:
-                V('C04-wrong-offset', f'attempt {ai}: offset {got_offset} sent, local file holds {size_before} bytes',
+                V('C04-wrong-offset', f'attempt {ai}: offset {got_offset} sent, local file holds {size_before} bytes '
+                  f'(bytes_transfered was {tr.bytes_transfered if got_offset != tr.bytes_transfered else "re-set to it"})',
                   observed=got_offset, required=size_before)
         if att.get('cutinit'):
             lines.append(f'begincut {ann}')
@@ -324,9 +457,24 @@ async def _dl_main(loop, case: dict, tmp: str):
                 V('C04-stuck-processing', f'attempt {ai}: the file connection broke before the offset went out; the '
                   f'download is left in {_state_name(tr)} with no task — it is never retried and the uploader\'s next '
                   'request is ignored', observed=_state_name(tr), required='QUEUED / INCOMPLETE / FAILED(reason)')
+            for op in att.get('post', []):
+                await do_post(op)
             continue
         lines.append(f"begin {ann} {1 if att.get('lim') else 0}")
         obs.append(_dl_snapshot(tr, off, lw, writes))
+        if case.get('monitor_only'):
+            # a name the file system cannot take: the attempt must end, with a reason, connection closed
+            await advance(1.0)
+            st = _state_name(tr)
+            if tr.is_processing() and _task_idle(tr):
+                exc = [e.get('exception') for e in loop.exceptions]
+                V('C04-stuck-processing', f'attempt {ai}: file name {name!r}: the download is left in {st} with no task '
+                  f'({exc[-1] if exc else "no exception"}), connection {"closed" if lw._closed else "left open"} — it is '
+                  'never retried and later requests are ignored', observed=st, required='FAILED with a reason')
+            if not rw._closed:
+                rw.close()
+            await settle()
+            continue
         if got_offset is None:
             obs[-1] += ' NO-OFFSET-ON-WIRE'
             # monitor: request accepted, every byte of the ticket delivered, no fault — the offset must go out
@@ -339,13 +487,18 @@ async def _dl_main(loop, case: dict, tmp: str):
             continue
         # the sender's stream for this attempt
         if att['mode'] == 'from0':
-            stream = [(mul, add, 0, N)]
+            stream = list(fpieces)
         else:
-            stream = [(mul, add, min(off, N), max(0, N - off))]
+            stream = slice_pieces(fpieces, min(off, Nk), max(0, Nk - off))
             if att['mode'] == 'extra':
                 stream.append((GMUL, GADD, 0, att.get('extra', 1)))
         pos, delivered_all, k = 0, False, 0
+        delivered = bytearray()
         segs = att['segs']
+        save_at = att.get('save')
+        gi = 0
+        if save_at == 0:
+            await do_save()
         while k < len(segs):
             group = [segs[k][0]]
             while segs[k][1] and k + 1 < len(segs):       # burst: next segment arrives before the reader runs
@@ -358,6 +511,7 @@ async def _dl_main(loop, case: dict, tmp: str):
                 pos += total(ps)
                 if ps and not rw._closed:
                     rw.write(bytes_of(ps))
+                    delivered += bytes_of(ps)
                 pieces += ps
             if not pieces:
                 continue
@@ -366,8 +520,13 @@ async def _dl_main(loop, case: dict, tmp: str):
             await advance(1.0 + (nbytes / (att['lim'] * 1024.0) * 1.5 if att.get('lim') else 0.0))
             lines.append('seg ' + enc_pieces(pieces))
             obs.append(_dl_snapshot(tr, off, lw, writes))
+            gi += 1
+            if save_at == gi:
+                await do_save()
         delivered_all = pos >= total(stream)
         end = att['end']
+        if end == 'pausew' and _state_name(tr) != 'DOWNLOADING':
+            end = 'pause'
         if end == 'eof':
             rw.close()
             await settle()
@@ -376,6 +535,39 @@ async def _dl_main(loop, case: dict, tmp: str):
             rw.reset()
             await settle()
             lines.append('err')
+        elif end == 'pause':
+            await do_api('pause')
+            del lines[-1], obs[-1]
+            lines.append('pause')
+        elif end == 'pausew':
+            # `pause()` lands while a chunk is with the disk-write thread: on disk, not counted
+            ps = slice_pieces(stream, pos, att.get('inflight', 1))
+            pos += total(ps)
+            gate.hold = True
+            if ps and not rw._closed:
+                rw.write(bytes_of(ps))
+                delivered += bytes_of(ps)
+            await settle()
+            await advance(1.0 + (total(ps) / (att['lim'] * 1024.0) * 1.5 if att.get('lim') else 0.0))
+            in_write = bool(gate.held)       # (otherwise the task had not read yet: the bytes die with the connection)
+            ptask = loop.create_task(tm.pause(tr))
+            await settle()
+            gate.release()
+            await settle()
+            try:
+                await ptask
+            except InvalidStateTransition:
+                pass
+            lines.append('pausew ' + enc_pieces(ps) if in_write else 'pause')
+        elif end == 'crash':
+            if ctx['saved']:
+                await do_crash()
+                del obs[-1]
+                tr = ctx['tr']
+            else:
+                rw.reset()
+                await settle()
+                lines.append('err')
         else:
             await advance(STALL)
             lines.append('err')
@@ -387,35 +579,55 @@ async def _dl_main(loop, case: dict, tmp: str):
         # ---- monitor, on what the real code did in this attempt
         st = _state_name(tr)
         local = _read_local(tr)
+        same_file = tr.local_path == path_before or path_before is None
         if tr.is_processing() and _task_idle(tr):
             V('C04-stuck-processing', f'attempt {ai}: ended, download left in {st} with no task',
               observed=st, required='a state from which the transfer is retried')
-        if len(local) < size_before:
+        if same_file and len(local) < size_before:
             V('C04-prefix-lost', f'attempt {ai}: local file shrank from {size_before} to {len(local)} bytes',
               observed=len(local), required=f'>= {size_before}')
-        if honest_so_far and local != F[:len(local)]:
+        elif same_file and (local[:size_before] != local_before or
+                            bytes(delivered[:len(local) - size_before]) != local[size_before:]):
+            # whoever the sender is: the downloader appends what it received, in order, and nothing else
+            V('C04-prefix-corrupted', f'attempt {ai}: the local file ({len(local)} bytes) is not what it held before '
+              f'({size_before} bytes) followed by a prefix of the {len(delivered)} bytes delivered in this attempt',
+              observed=fnv(local), required=fnv(local_before + bytes(delivered[:max(0, len(local) - size_before)])))
+        if lineage_ok and local != Fk[:len(local)]:
             V('C04-prefix-corrupted', f'attempt {ai}: honest sender, but the local file ({len(local)} bytes) is not a '
-              'prefix of the remote file', observed=fnv(local), required=fnv(F[:len(local)]))
-        if st == 'COMPLETE' and tr.filesize != len(local):
-            V('C04-complete-size-mismatch', f'attempt {ai}: COMPLETE with a local file of {len(local)} bytes, announced '
-              f'size {tr.filesize}', observed=len(local), required=tr.filesize)
-        if st == 'COMPLETE' and honest_so_far and local != F:
+              'prefix of the remote file', observed=fnv(local), required=fnv(Fk[:len(local)]))
+        if st == 'COMPLETE' and ann != len(local):
+            V('C04-complete-size-mismatch', f'attempt {ai}: COMPLETE with a local file of {len(local)} bytes, the size '
+              f'announced for this attempt is {ann} (transfer.filesize = {tr.filesize})',
+              observed=len(local), required=ann)
+        if st == 'COMPLETE' and honest_att and local[off:] != Fk[off:]:
+            V('C04-complete-but-differs', f'attempt {ai}: COMPLETE but from offset {off} on the local file differs from '
+              'the remote file served in this attempt',
+              observed={'len': len(local), 'fnv': fnv(local[off:])}, required={'len': Nk, 'fnv': fnv(Fk[off:])})
+        if st == 'COMPLETE' and lineage_ok and local != Fk:
             V('C04-complete-but-differs', f'attempt {ai}: COMPLETE but the local file differs from the remote file',
-              observed={'len': len(local), 'fnv': fnv(local)}, required={'len': N, 'fnv': fnv(F)})
-        if honest_att and delivered_all and end in ('stall', 'eof') and state_before != 'COMPLETE':
+              observed={'len': len(local), 'fnv': fnv(local)}, required={'len': Nk, 'fnv': fnv(Fk)})
+        if honest_att and delivered_all and off <= Nk and end in ('stall', 'eof') and state_before != 'COMPLETE':
             # fault-free attempt: everything that was missing was delivered, the sender kept the connection open
             # (or closed it only after the last byte)
-            if st != 'COMPLETE' or local != F:
+            if st != 'COMPLETE' or len(local) != Nk or (lineage_ok and local != Fk):
                 V('C04-no-complete-after-full-delivery',
-                  f'attempt {ai}: honest sender delivered all {max(0, N - off)} missing bytes (offset {off} of {N}) without '
-                  f'any fault, download ended {st} with {len(local)} bytes',
-                  observed={'state': st, 'len': len(local)}, required={'state': 'COMPLETE', 'len': N})
-        if not honest_att or not delivered_all or end == 'reset':
+                  f'attempt {ai}: honest sender announced {ann} and delivered all {max(0, Nk - off)} missing bytes '
+                  f'(offset {off} of {Nk}) without any fault, download ended {st} with {len(local)} bytes',
+                  observed={'state': st, 'len': len(local)}, required={'state': 'COMPLETE', 'len': Nk})
+        if end in ('pause', 'pausew'):
+            if st not in ('PAUSED', 'COMPLETE') and not st.startswith('FAILED:'):
+                V('C04-cut-outcome', f'attempt {ai}: after pause() the download is {st}', observed=st, required='PAUSED')
+        elif end == 'crash':
+            pass
+        elif not honest_att or not delivered_all or end == 'reset':
             # a cut / dishonest attempt: allowed outcomes
             if st not in ('COMPLETE', 'INCOMPLETE', 'QUEUED') and not st.startswith('FAILED:') and \
                     not (tr.is_processing() and _task_idle(tr)):
                 V('C04-cut-outcome', f'attempt {ai}: after a cut the download is {st}', observed=st,
                   required='INCOMPLETE or FAILED with a reason')
+        for op in att.get('post', []):
+            await do_post(op)
+    tr = ctx['tr']
     lines.append('hash')
     local = _read_local(tr)
     obs.append(f'h={fnv(local)} len={len(local)}')
@@ -734,8 +946,169 @@ def _gen_dl_random(rng: random.Random) -> dict:
                 have = 0
         if not a.get('cutinit'):
             a['hs'] = _hs_split(rng, 4)
+            r2 = rng.random()
+            if r2 < 0.06:
+                a['end'], a['inflight'] = 'pausew', rng.choice([1, 128, 129, 8192, 9000])
+            elif r2 < 0.09:
+                a['end'] = 'pause'
+            elif r2 < 0.13:
+                a['save'], a['end'] = rng.choice([0, 1, 2]), rng.choice(['crash', a['end']])
+        if rng.random() < 0.12:
+            a['post'] = [rng.choice(['queue', 'pause', 'save', 'crash']) for _ in range(rng.choice([1, 1, 2, 3]))]
         atts.append(a)
     return {'kind': 'dl', 'flen': N, 'mul': mul, 'add': add, 'pre': pre, 'attempts': atts, 'gen': 'random'}
+
+
+def _segs_with_boundary(rng: random.Random, n: int, boundary: int | None) -> list:
+    """segmentation of n bytes; when `boundary` (0 < boundary < n) is given, one segment ends exactly there and the
+    reader runs before the next one arrives (a read ends exactly at that byte)"""
+    if boundary is None or not (0 < boundary < n):
+        return _segmentation(rng, n)
+    head = _segmentation(rng, boundary)
+    if head:
+        head[-1][1] = False
+    return head + _segmentation(rng, n - boundary)
+
+
+CHANGES = ['grow', 'grow', 'grow', 'shrink', 'shrink-below', 'zero', 'replace', 'replace-size']
+
+
+def _changed_file(rng: random.Random, mul: int, add: int, n: int, have: int, how: str) -> list:
+    """the shared file after it changed (pattern pieces); `have` = bytes the downloader holds"""
+    if how == 'grow':
+        return [(mul, add, 0, n + rng.choice([1, 127, 128, 129, 1920, 6000, 8192, 8193]))]
+    if how == 'shrink':            # still at least what the downloader holds
+        return [(mul, add, 0, rng.choice([have, min(n, have + 1), max(have, n - 1), max(have, n - 128), max(have, n // 2)]))]
+    if how == 'shrink-below':      # shorter than the local file
+        return [(mul, add, 0, max(0, rng.choice([have - 1, have - 128, have // 2, 1])))]
+    if how == 'zero':
+        return [(mul, add, 0, 0)]
+    if how == 'replace':           # other content, same size
+        return [(mul + 2, (add + 77) % 256, 0, n)]
+    return [(mul + 2, (add + 77) % 256, 0, max(0, n + rng.choice([-1, 1, 128, -128, 5000])))]
+
+
+def _gen_dl_changing(rng: random.Random) -> dict:
+    """the remote file (and with it the announced size) changes between the attempts; the uploader is honest in
+    every attempt; every segmentation of the retry, in particular a read that ends exactly at the OLD end of file"""
+    N = rng.choice([1, 128, 300, 1280, 5120, 8192, 8193, 20000])
+    mul, add = rng.choice([1, 3, 7, 11]), rng.randint(0, 255)
+    lim1 = rng.choice([0, 0, 1, 50])
+    if rng.random() < 0.4:
+        k = max(0, N - 128 * rng.randint(1, max(1, N // 128)))      # old end = a multiple of 128 reads away
+    else:
+        k = rng.choice([0, 1, N - 1, N // 2, rng.randint(0, N)])
+    a1 = {'ann': N, 'lim': lim1, 'mode': 'honest', 'segs': _segmentation(rng, k),
+          'end': rng.choice(['reset', 'reset', 'eof', 'stall']), 'hs': _hs_split(rng, 4)}
+    atts, have, cur, cur_n = [a1], k, None, N
+    for _ in range(rng.choice([1, 1, 1, 2])):
+        how = rng.choice(CHANGES)
+        f = _changed_file(rng, mul, add, cur_n, have, how)
+        n2 = total(f)
+        lim = rng.choice([0, 0, 1, 50, lim1])
+        if n2 - have > 9000 and lim == 1:
+            lim = 50
+        missing = max(0, n2 - have)
+        last = rng.random() < 0.75
+        cutk = missing if last else rng.randint(0, missing)
+        a = {'ann': n2, 'file': [list(x) for x in f], 'lim': lim, 'mode': 'honest', 'change': how,
+             'segs': _segs_with_boundary(rng, cutk, (cur_n - have) if rng.random() < 0.6 else None),
+             'end': rng.choice(['stall', 'stall', 'eof']) if last else rng.choice(['reset', 'eof', 'stall']),
+             'hs': _hs_split(rng, 4)}
+        if lim and rng.random() < 0.5 and a['segs']:
+            a['segs'] = [[cutk, False]]          # one burst: the 128-byte reads do the cutting
+        atts.append(a)
+        if f[0][0] == mul and n2 >= have:
+            have = min(n2, have + cutk)
+        cur_n = n2
+    return {'kind': 'dl', 'flen': N, 'mul': mul, 'add': add, 'pre': None, 'attempts': atts, 'gen': 'changing'}
+
+
+def _gen_dl_restart(rng: random.Random) -> dict:
+    """the cache is written at some moment, the download goes on, the client dies, a new instance resumes"""
+    N = rng.choice([1, 300, 1280, 8192, 8193, 20000, 3 * 8192 + 5])
+    mul, add = rng.choice([1, 3, 7, 11]), rng.randint(0, 255)
+    lim = rng.choice([0, 0, 0, 1, 50])
+    if N > 9000 and lim == 1:
+        lim = 50
+    k = rng.choice([N // 2, N - 1, rng.randint(0, N), min(N, 8192), min(N, 16384), N])
+    segs = _segmentation(rng, k)
+    groups = sum(1 for s_ in segs if not s_[1]) or len(segs)
+    case = {'kind': 'dl', 'flen': N, 'mul': mul, 'add': add, 'pre': None, 'gen': 'restart', 'attempts': []}
+    shape = rng.choice(['mid', 'mid', 'mid', 'before', 'after-cut', 'paused', 'twice'])
+    a1 = {'ann': N, 'lim': lim, 'mode': 'honest', 'segs': segs, 'end': 'crash', 'hs': _hs_split(rng, 4)}
+    if shape == 'before':
+        case['pre_ops'] = ['save']                       # saved before the first attempt: no local path stored yet
+    elif shape == 'after-cut':
+        a1['end'] = rng.choice(['reset', 'eof', 'stall'])
+        a1['post'] = rng.choice([['save', 'crash'], ['crash'], ['save', 'crash', 'crash']])
+        a1['save'] = rng.randint(0, groups) if rng.random() < 0.6 else None
+    elif shape == 'paused':
+        a1['end'] = rng.choice(['pause', 'pausew'])
+        a1['inflight'] = rng.choice([1, 128, 129, 8192, 9000])
+        a1['save'] = rng.randint(0, groups) if rng.random() < 0.5 else None
+        a1['post'] = rng.choice([['save', 'crash', 'queue'], ['crash', 'queue'], ['queue', 'save', 'crash']])
+    else:
+        a1['save'] = rng.randint(0, groups)
+    case['attempts'].append(a1)
+    if shape == 'twice':
+        a2 = {'ann': N, 'lim': lim, 'mode': 'honest', 'segs': _segmentation(rng, rng.randint(0, max(0, N - k))),
+              'end': 'crash', 'save': rng.choice([None, 0, 1]), 'hs': _hs_split(rng, 4)}
+        case['attempts'].append(a2)
+    a3 = _fault_free(rng, N, lim=rng.choice([0, lim]))
+    a3['segs'] = _segmentation(rng, N)                   # generous: what exceeds the missing bytes is not sent
+    a3['hs'] = _hs_split(rng, 4)
+    case['attempts'].append(a3)
+    if rng.random() < 0.3:
+        a4 = _fault_free(rng, N, lim=0)
+        a4['segs'] = _segmentation(rng, N)
+        case['attempts'].append(a4)
+    return case
+
+
+def _gen_dl_pause(rng: random.Random) -> dict:
+    """pause() — also while a chunk is with the disk-write thread —, queue(), resume"""
+    N = rng.choice([1, 129, 300, 8192, 8193, 20000, 3 * 8192 + 5])
+    mul, add = rng.choice([1, 3, 7, 11]), rng.randint(0, 255)
+    lim = rng.choice([0, 0, 0, 1, 50])
+    if N > 9000 and lim == 1:
+        lim = 50
+    k = rng.choice([0, 1, N // 2, rng.randint(0, N), min(N, 8192), max(0, N - 1)])
+    end = rng.choice(['pausew', 'pausew', 'pausew', 'pause'])
+    a1 = {'ann': N, 'lim': lim, 'mode': 'honest', 'segs': _segmentation(rng, k), 'end': end,
+          'inflight': rng.choice([1, 127, 128, 129, 8191, 8192, 8193, 20000, max(1, N - k)]),
+          'hs': _hs_split(rng, 4),
+          'post': rng.choice([['queue'], ['queue'], [], ['pause', 'queue'], ['queue', 'pause', 'queue'], ['queue', 'queue']])}
+    atts = [a1]
+    if rng.random() < 0.3:
+        a = {'ann': N, 'lim': lim, 'mode': 'honest', 'segs': _segmentation(rng, rng.randint(0, N)),
+             'end': rng.choice(['pausew', 'reset', 'pause']), 'inflight': rng.choice([1, 128, 8192]),
+             'hs': _hs_split(rng, 4), 'post': ['queue']}
+        atts.append(a)
+    a3 = _fault_free(rng, N, lim=rng.choice([0, lim]))
+    a3['segs'] = _segmentation(rng, N)
+    a3['hs'] = _hs_split(rng, 4)
+    if not a1['post']:
+        a3['post'] = ['queue']                    # the request is refused while PAUSED; then queue() and once more
+        atts.append(a3)
+        a3 = dict(a3, post=[])
+    atts.append(a3)
+    case = {'kind': 'dl', 'flen': N, 'mul': mul, 'add': add, 'pre': None, 'attempts': atts, 'gen': 'pause'}
+    if rng.random() < 0.15:
+        case['pre_ops'] = rng.choice([['pause', 'queue'], ['pause']])
+    return case
+
+
+BAD_NAMES = ['music\\a\x00b.bin', 'music\\\x00', 'music\\' + 'x' * 300 + '.bin', 'music\\song\x00.mp3\\f.bin',
+             'mu\x00sic\\f.bin', 'music\\' + 'é' * 130 + '.bin']
+
+
+def _gen_dl_name(rng: random.Random, i: int) -> dict:
+    """a peer-chosen file name the file system cannot take (monitor only: the attempt must end with a reason)"""
+    N = rng.choice([0, 10, 300])
+    return {'kind': 'dl', 'flen': N, 'mul': 1, 'add': 0, 'pre': None, 'gen': 'name', 'monitor_only': True,
+            'name': BAD_NAMES[i % len(BAD_NAMES)],
+            'attempts': [{'ann': N, 'lim': 0, 'mode': 'honest', 'segs': [[N, False]] if N else [], 'end': 'stall'}]}
 
 
 def _gen_ul(rng: random.Random) -> dict:
@@ -778,6 +1151,13 @@ WITNESSES = [
      {'kind': 'dl', 'flen': 10, 'mul': 1, 'add': 0, 'pre': None, 'gen': 'witness',
       'attempts': [{'ann': 10, 'lim': 0, 'mode': 'honest', 'segs': [], 'end': 'reset', 'cutinit': True},
                    {'ann': 10, 'lim': 0, 'mode': 'honest', 'segs': [[10, False]], 'end': 'stall'}]}),
+    ('C04-stuck-processing',                     # NUL in the peer-chosen file name (fixed 4bd19b5)
+     {'kind': 'dl', 'flen': 10, 'mul': 1, 'add': 0, 'pre': None, 'gen': 'witness', 'monitor_only': True,
+      'name': 'music\\a\x00b.bin',
+      'attempts': [{'ann': 10, 'lim': 0, 'mode': 'honest', 'segs': [[10, False]], 'end': 'stall'}]}),
+    ('C04-complete-but-differs',                 # two uploaders, same ticket (fixed d97c791)
+     {'kind': 'pair', 'flen': 20000, 'mul': 1, 'add': 0, 'second': [{'flen': 20000, 'mul': 3, 'add': 9}], 'stagger': 0,
+      'lat_f_by': {'up': 0.5}, 'gen': 'witness'}),
 ]
 
 
@@ -794,7 +1174,7 @@ def _corpus() -> list:
 
 def _nontrivial(case) -> bool:
     if case['kind'] == 'dl':
-        return len(case['attempts']) >= 2 or any(a['end'] == 'reset' or a['mode'] != 'honest' or a.get('cutinit')
+        return len(case['attempts']) >= 2 or bool(case.get('pre_ops')) or case.get('monitor_only') or any(a['end'] == 'reset' or a['mode'] != 'honest' or a.get('cutinit')
                                                  for a in case['attempts']) or bool(case.get('pre'))
     if case['kind'] == 'ul':
         return any(a['off'] > 0 or any(o != 'chunk' and o != 'close' for o in a['ops']) for a in case['attempts'])
@@ -873,6 +1253,11 @@ class C04(Property):
                                              rng.choice(['reset', 'reset', 'eof', 'stall'])))
         # (b) random histories, (c) uploads
         cases += [_gen_dl_random(rng) for _ in range((500 if quick else 9000) * widen)]
+        # (b2) the remote file changes between attempts; restarts from a cache written mid-download; pause / queue
+        cases += [_gen_dl_changing(rng) for _ in range((220 if quick else 4000) * widen)]
+        cases += [_gen_dl_restart(rng) for _ in range((110 if quick else 2000) * widen)]
+        cases += [_gen_dl_pause(rng) for _ in range((110 if quick else 2000) * widen)]
+        cases += [_gen_dl_name(rng, i) for i in range(len(BAD_NAMES))]
         cases += [_gen_ul(rng) for _ in range((350 if quick else 6000) * widen)]
         # (d) pairs
         try:
@@ -905,6 +1290,12 @@ class C04(Property):
             for a in c.get('attempts', []):
                 if c['kind'] == 'dl':
                     res.count('dl-attempt:end=' + ('cutinit' if a.get('cutinit') else a['end']))
+                    if a.get('change'):
+                        res.count('dl-attempt:remote-file=' + a['change'])
+                    if a.get('save') is not None:
+                        res.count('dl-attempt:cache-saved-mid-download')
+                    for o in a.get('post', []):
+                        res.count('dl-post-op:' + o)
                     res.count('dl-attempt:mode=' + a['mode'] + ('' if a['ann'] == c['flen'] else '+other-size'))
                     res.count('dl-attempt:limiter=' + ('on' if a.get('lim') else 'off'))
                     res.count('dl-attempt:ticket=' + ('whole' if not a.get('hs') else 'bytewise' if
@@ -929,7 +1320,7 @@ class C04(Property):
                 res.notes.append(f'harness exception: {obs[-1][:300]} on {str(c)[:200]}')
                 res.disagreements.append(Disagreement(c, obs[-1][:300], None, 'exception while driving the real code'))
                 continue
-            if model is not None and c['kind'] != 'pair':
+            if model is not None and c['kind'] != 'pair' and not c.get('monitor_only'):
                 res.traces_validated += 1
                 mo = model[i]
                 cmp_obs = obs       # an exception that escaped into the event loop shows as an extra line
@@ -945,7 +1336,7 @@ class C04(Property):
                     res.disagreements.append(Disagreement(
                         c, cmp_obs[bad] if bad < len(cmp_obs) else None, mo[bad] if bad < len(mo) else None,
                         f'line #{bad}: {ml[bad] if bad < len(ml) else ""}'))
-            elif c['kind'] == 'pair':
+            elif c['kind'] == 'pair' or c.get('monitor_only'):
                 res.traces_validated += 1
             if len(res.samples) < 3 and i >= n_fixed and len(str(c)) < 400 and _nontrivial(c):
                 res.samples.append({'case': c, 'impl': obs[:12]})
